@@ -498,30 +498,100 @@ fn one_round(rng: &mut Rng, case: &mut Case) -> Outcome {
     Outcome::Held
 }
 
-/// Cold start: in a FRESH process, the very first jet executions happen on 16 threads at once (whatever the library
-/// or the C glue initialises lazily is initialised under contention); the one-at-a-time results are computed afterwards.
-/// Returns a description of the first difference.
-pub fn cold_process(seed: u64) -> Result<u64, String> {
+/// Cold start, parent side: programs with jets as bytes, plus the seed from which the child regenerates the transactions.
+pub fn cold_inputs(seed: u64) -> Vec<(Vec<u8>, Vec<u8>)> {
     let mut rng = Rng::new(seed);
-    let mut pool: Vec<Item> = Vec::new();
+    let mut out = Vec::new();
     let mut tries = 0;
-    while pool.len() < 4 && tries < 60 {
+    while out.len() < 4 && tries < 60 {
         tries += 1;
         if let Some(p) = gen_prog_item(&mut rng) {
-            // only programs that run a jet are interesting here
             if p.dag.nodes.iter().any(|o| matches!(o, Op::Jet(_))) {
-                pool.push(Item::Prog(Box::new(p)));
+                out.push((p.pb, p.wb));
             }
         }
     }
-    if pool.is_empty() {
+    out
+}
+
+fn type_digest(k: usize) -> String {
+    // the precomputed type tables: words up to 2^(2^31), the sha256 buffer types and the Ctx8 type
+    let mut s = String::new();
+    for n in [0usize, 3, 8, 9, 10, 11, 12, 16, 24, 31].iter().cycle().skip(k).take(10) {
+        match Final::two_two_n(*n) {
+            Ok(t) => s.push_str(&format!("w{}:{}:{};", n, t.tmr(), t.bit_width())),
+            Err(_) => s.push_str(&format!("w{}:too-large;", n)),
+        }
+    }
+    for n in (0..10usize).cycle().skip(k).take(10) {
+        match Final::buffer8_two_n_plus_one(n) {
+            Ok(t) => s.push_str(&format!("b{}:{}:{};", n, t.tmr(), t.bit_width())),
+            Err(_) => s.push_str(&format!("b{}:too-large;", n)),
+        }
+    }
+    let c = Final::ctx8();
+    s.push_str(&format!("ctx8:{}:{};", c.tmr(), c.bit_width()));
+    let e = simplicity::hashes::sha256::HashEngine::default();
+    let v = std::panic::catch_unwind(|| Value::ctx8_from_hash_engine(&e)).map(|v| v.iter_compact().map(|b| if b { '1' } else { '0' }).collect::<String>()).unwrap_or_else(|_| "panic".into());
+    s.push_str(&format!("ctx8-value:{}", hash_str(&v)));
+    s
+}
+
+fn cold_op(progs: &[(Vec<u8>, Vec<u8>)], specs: &[TxSpec], i: usize, op: usize) -> String {
+    match op {
+        0 => match RedeemNode::decode::<_, _, Elements>(BitIter::from(&progs[i].0[..]), BitIter::from(&progs[i].1[..])) {
+            Ok(r) => format!("{} ; {}", redeem_digest(&r), exec_digest(&r, &specs[i])),
+            Err(e) => format!("decode-error:{}", e),
+        },
+        1 => {
+            let env = txgen::build_env(&specs[i]);
+            let c = cffi::run_c(&progs[i].0, &progs[i].1, After::Eval { flags: cffi::CHECK_NONE, env: Some(env.c_tx_env()) });
+            format!("{}|{}|{}|{:?}", c.err, bits::fmt_bytes(&c.analysis.cmr), bits::fmt_bytes(&c.analysis.ihr), c.eval)
+        }
+        2 => match RedeemNode::decode::<_, _, Elements>(BitIter::from(&progs[i].0[..]), BitIter::from(&progs[i].1[..])) {
+            Ok(r) => {
+                let env = txgen::build_env(&specs[i]);
+                match r.prune(&env) {
+                    Ok(q) => format!("pruned:{}", q.ihr()),
+                    Err(e) => format!("prune-error:{}", e),
+                }
+            }
+            Err(e) => format!("decode-error:{}", e),
+        },
+        _ => type_digest(i),
+    }
+}
+
+/// Cold start, child side: in a FRESH process whose first library calls happen on 16 threads released together
+/// (decoding, type construction from the precomputed tables, jet execution, the C pipeline, pruning); whatever the
+/// library or its C glue initialises lazily is initialised under contention. The one-at-a-time results are computed
+/// afterwards in the same process. Returns a description of the first difference.
+/// What the cold-start operations give in a process that ran them one at a time from the start (computed by the
+/// parent; a child whose lazily built tables went wrong under contention would otherwise agree with itself).
+pub fn cold_expected(seed: u64, progs: &[(Vec<u8>, Vec<u8>)]) -> Vec<String> {
+    let mut rng = Rng::new(seed ^ 0x7a5c_01d5);
+    let specs: Vec<TxSpec> = progs.iter().map(|_| txgen::gen_tx(&mut rng, 3, 3)).collect();
+    let mut out = Vec::new();
+    for i in 0..progs.len() {
+        for o in 0..4 {
+            out.push(cold_op(progs, &specs, i, o));
+        }
+    }
+    out
+}
+
+pub fn cold_process(seed: u64, progs: &[(Vec<u8>, Vec<u8>)], expected: &[String]) -> Result<u64, String> {
+    if progs.is_empty() {
         return Ok(0);
     }
-    let ops = ["exec-shared", "exec-own", "c-pipeline", "prune-shared"];
+    // transactions are plain data (no library types are touched by generating them)
+    let mut rng = Rng::new(seed ^ 0x7a5c_01d5);
+    let specs: Vec<TxSpec> = progs.iter().map(|_| txgen::gen_tx(&mut rng, 3, 3)).collect();
+    let n_ops = 4usize;
     let threads = 16usize;
     let started = AtomicUsize::new(0);
     let results: Mutex<Vec<(usize, usize, usize, String)>> = Mutex::new(Vec::new());
-    let pool_ref = &pool;
+    let (progs_ref, specs_ref) = (progs, &specs);
     std::thread::scope(|s| {
         for th in 0..threads {
             let (started, results) = (&started, &results);
@@ -531,10 +601,10 @@ pub fn cold_process(seed: u64) -> Result<u64, String> {
                     std::hint::spin_loop();
                 }
                 let mut local = Vec::new();
-                for k in 0..pool_ref.len() * ops.len() {
-                    let i = (k + th) % pool_ref.len();
-                    let o = (k / pool_ref.len() + th) % ops.len();
-                    let d = std::panic::catch_unwind(std::panic::AssertUnwindSafe(|| run_op(&pool_ref[i], ops[o]))).unwrap_or_else(|_| "panic".into());
+                for k in 0..progs_ref.len() * n_ops {
+                    let i = (k + th) % progs_ref.len();
+                    let o = (k / progs_ref.len() + th) % n_ops;
+                    let d = std::panic::catch_unwind(std::panic::AssertUnwindSafe(|| cold_op(progs_ref, specs_ref, i, o))).unwrap_or_else(|_| "panic".into());
                     local.push((th, i, o, d));
                 }
                 results.lock().unwrap().extend(local);
@@ -542,12 +612,18 @@ pub fn cold_process(seed: u64) -> Result<u64, String> {
         }
     });
     let results = results.into_inner().unwrap();
+    let names = ["decode+exec", "c-pipeline", "decode+prune", "precomputed-types"];
     let mut n = 0u64;
     for (th, i, o, d) in results {
-        let want = run_op(&pool[i], ops[o]);
+        let want = std::panic::catch_unwind(std::panic::AssertUnwindSafe(|| cold_op(progs, &specs, i, o))).unwrap_or_else(|_| "panic".into());
         n += 1;
         if d != want {
-            return Err(format!("operation `{}` on program {} gave on thread {} of a fresh process: {} ; afterwards, one at a time: {}", ops[o], i, th, truncate(&d, 300), truncate(&want, 300)));
+            return Err(format!("operation `{}` on program {} gave on thread {} of a fresh process: {} ; afterwards, one at a time: {}", names[o], i, th, truncate(&d, 300), truncate(&want, 300)));
+        }
+        if let Some(e) = expected.get(i * n_ops + o) {
+            if d != *e {
+                return Err(format!("operation `{}` on program {} gave on thread {} of a fresh process: {} ; in a process that ran it one at a time from the start: {}", names[o], i, th, truncate(&d, 300), truncate(e, 300)));
+            }
         }
     }
     Ok(n)
@@ -565,7 +641,24 @@ pub fn run(ctx: &Ctx) {
             Ok(e) => e,
             Err(e) => return Outcome::Inconclusive(format!("current_exe: {}", e)),
         };
-        let out = match std::process::Command::new(exe).args(["C20-cold", "--seed", &seed.to_string()]).output() {
+        // the programs are generated here, in the parent; the child gets bytes only, so that its first library calls
+        // are the concurrent ones
+        let progs = cold_inputs(seed);
+        if progs.is_empty() {
+            return Outcome::Trivial;
+        }
+        let file = ctx.out_dir.join(format!("cold-{}-{}.txt", std::process::id(), case.idx));
+        let expected = cold_expected(seed, &progs);
+        let mut text: String = progs.iter().map(|(p, w)| format!("{} {}\n", crate::runner::hex(p), if w.is_empty() { "-".to_string() } else { crate::runner::hex(w) })).collect();
+        for e in &expected {
+            text.push_str(&format!("= {}\n", crate::runner::hex(e.as_bytes())));
+        }
+        if let Err(e) = std::fs::write(&file, text) {
+            return Outcome::Inconclusive(format!("write: {}", e));
+        }
+        let out = std::process::Command::new(exe).args(["C20-cold", "--seed", &seed.to_string(), "--file", &file.to_string_lossy()]).output();
+        let _ = std::fs::remove_file(&file);
+        let out = match out {
             Ok(o) => o,
             Err(e) => return Outcome::Inconclusive(format!("spawn: {}", e)),
         };
